@@ -61,7 +61,26 @@ impl Check for C12 {
         let cfg2 = Config { cols: c, rows: rw, limit: cfg.limit };
         let policy = *r.pick(&[CutPolicy::TokenAligned, CutPolicy::RandomK, CutPolicy::RandomK, CutPolicy::EveryChar, CutPolicy::FeedLoop, CutPolicy::Mixed, CutPolicy::Mixed]);
         let dp = *r.pick(&[DrainPolicy::AlwaysAll, DrainPolicy::Mixed]);
-        let tail = gen_events(r, &cfg2, &o2, policy, dp, &mut gs);
+        let mut tail = gen_events(r, &cfg2, &o2, policy, dp, &mut gs);
+        if let Some(v) = super::draw_volume(r, true) {
+            // a volume string inside the string under test, in 2-4 pieces (the twin gets one call);
+            // without a scrollback limit it is sent to the alternate screen (nothing is retained)
+            let mut s = super::volume_string(r, v);
+            if cfg.limit.is_none() && v != super::Volume::Rep20 {
+                s = format!("\x1b[?1049h{}{}", s, r.pick(&["", "\x1b[?1049l"]));
+            }
+            let k = 2 + r.usize_below(3);
+            let at = r.usize_below(tail.len() + 1);
+            let vevs = super::volume_events(&s, k, r);
+            tail.splice(at..at, vevs);
+            st.bump("volume_runs");
+            st.bump(match v {
+                super::Volume::Lines17 => "volume_2p17_rows_in_one_call",
+                super::Volume::Lines20 => "volume_2p20_rows_in_one_call",
+                super::Volume::Rep20 => "volume_2p20_cells_repeated_in_one_call",
+                super::Volume::Chars21 => "volume_2p21_characters_in_one_call",
+            });
+        }
         evs.extend(tail);
         if r.chance(1, 2) {
             // equal states must have equal futures: a shared continuation (input and - where trim
@@ -223,7 +242,7 @@ impl Check for C12 {
     }
     fn meta(&self) -> Meta {
         Meta {
-            rule: "a shared prefix history (may contain resizes), then one string delivered (A) as the generated series of feed_str pieces / feed(char) loops, cut anywhere, and (B) as one feed_str; compared: view (cells, pens, wrap marks), cursor, cursor-key mode, dump() (modes; same build, same state) and - with unlimited scrollback - lines(); in half of the runs a shared continuation (input; resizes only with unlimited scrollback, because under a limit the amount of retained scrollback may legitimately differ and a resize would expose it) follows and the twins must stay equal after each of its events; non-trivial = >= 2 pieces and >= 2 characters; distinct = final-screen digests",
+            rule: "volume faults (1 run in ~1400: 2^17+ or 2^20+ rows scrolled off, 17-20 x REP 65535, or 2^21+ characters inside the string under test, in 2-4 pieces vs one call); a shared prefix history (may contain resizes), then one string delivered (A) as the generated series of feed_str pieces / feed(char) loops, cut anywhere, and (B) as one feed_str; compared: view (cells, pens, wrap marks), cursor, cursor-key mode, dump() (modes; same build, same state) and - with unlimited scrollback - lines(); in half of the runs a shared continuation (input; resizes only with unlimited scrollback, because under a limit the amount of retained scrollback may legitimately differ and a resize would expose it) follows and the twins must stay equal after each of its events; non-trivial = >= 2 pieces and >= 2 characters; distinct = final-screen digests",
             assumptions: vec!["with a scrollback limit lines() is not compared (trim timing is legitimately different; C14 covers the stream)", "a panic on both sides / in the shared prefix is C01's subject; a panic on one side only is a violation"],
             real: vec!["avt::Vt (both twins)", "avt::parser::Parser (lock-step)"],
             simulated: vec!["App", "Pipe (cut sets, feed() loops, damage)", "Window (prefix only)", "Consumer"],
